@@ -728,6 +728,31 @@ impl Sut for Seq {
     }
 }
 
+/// One classification key per root cause (known findings are matched on it); the symptom key stays in
+/// the violation text. Anything that does not match a rule keeps its symptom key.
+fn root_cause(mut v: Violation) -> Violation {
+    let k = v.key.clone();
+    let v2 = k.contains("/V2_1/") || k.contains("/V2_2/");
+    let listy = v.what.starts_with("ListI32") || v.what.starts_with("LargeListUtf8") || v.what.starts_with("StructL");
+    let new = if v2 && listy && (k.contains("task-panic/assertion-left-right") || k.contains("L:len-changed") || k.contains("L[]") || k.contains("row-count")) {
+        // all lists of a page valid and non-empty, items nullable, a list starts with a NULL item
+        Some("v2.1+/list-starting-with-null-item-dropped")
+    } else if v2 && listy && k.contains("task-panic/called-Option-unwrap-on-a-None") {
+        Some("v2.1+/all-null-list-slice-of-batch-with-null-items")
+    } else if k.contains("/Legacy/") && k.ends_with("empty->null") {
+        Some("legacy/empty-string-or-binary-reads-as-null")
+    } else if k.contains("/Legacy/") && (k.contains("Dict.") || v.what.contains("Invalid dictionary key")) {
+        Some("legacy/dictionary-of-first-batch-used-for-whole-file")
+    } else {
+        None
+    };
+    if let Some(n) = new {
+        v.what = format!("[{k}] {}", v.what);
+        v.key = n.to_string();
+    }
+    v
+}
+
 // ------------------------------------------------------------------------------------------------
 
 fn replay(ctx: &Ctx, art: &Value, out: &mut Outcome) {
@@ -747,6 +772,9 @@ fn replay(ctx: &Ctx, art: &Value, out: &mut Outcome) {
         out.violations.extend(acc.viol);
     }
     let _ = ctx;
+    let vs: Vec<Violation> = out.violations.drain(..).map(root_cause).collect();
+    let key = art["key"].as_str().unwrap_or("").to_string();
+    out.violations = vs.into_iter().filter(|v| key.is_empty() || v.key == key).collect();
     out.set("evaluations", 1u64);
     out.set("distinct_nontrivial", 0u64);
     out.set("rule", "replay of one recorded case");
@@ -835,8 +863,8 @@ pub fn run(ctx: &Ctx) -> Outcome {
     for s in rep.samples.iter().take(3) {
         acc.cov.sample(s.clone());
     }
-    out.violations.extend(acc.viol.drain(..));
-    out.violations.extend(rep.violations.iter().cloned());
+    out.violations.extend(acc.viol.drain(..).map(root_cause));
+    out.violations.extend(rep.violations.iter().cloned().map(root_cause));
 
     let exhaustive = skipped == 0 && rep.cap_hit.is_none();
     acc.cov.fill(
